@@ -258,3 +258,16 @@ def ranges_over(it, coll):
         if it.func.id == '_each' and len(it.args) == 2:
             return ranges_over(it.args[1], coll)
     return False
+
+
+
+def opaque_text(p_):
+    """the text a writer path returns is produced by a method of a local object (`report.render()`): the lines are
+    collected inside that object and are not followed - a rule that counts lines must answer "not understood" """
+    import ast as _ast
+    r = p_.ret
+    if isinstance(r, _ast.Call) and isinstance(r.func, _ast.Attribute) and isinstance(r.func.value, _ast.Name) and \
+            r.func.attr not in ('join', 'format', 'strip', 'rstrip', 'lstrip', 'ljust', 'rjust', 'upper', 'replace') and \
+            r.func.value.id not in ('self', 'np', 'str', 'os'):
+        return '%s.%s()' % (r.func.value.id, r.func.attr)
+    return None
